@@ -72,7 +72,7 @@ BASE_POOL = [
     ('text', 'straße'), ('text', 'STRASSE'), ('text', 'ﬁn'), ('text', 'FIN'),
     ('bool', True), ('bool', False), ('blank', None),
 ]
-MODES = ['typed', 'native', 'cells', 'literals']
+MODES = ['typed', 'native', 'cells', 'literals', 'calls']
 
 
 def shards(tier):
@@ -188,6 +188,11 @@ def run(ctx):
                 for op in OPS:
                     texts.append(f'={la}{op}{lb}')
                     meta.append(('literals', op, i, j))
+                # both operands produced by calls of one and the same
+                # function (with different arguments)
+                for op in OPS:
+                    texts.append(f'=IF(TRUE,{la}){op}IF(TRUE,{lb})')
+                    meta.append(('calls', op, i, j))
         outs = subject.eval_batch(texts, inputs, post_set=post)
         for (mode, op, i, j), got in zip(meta, outs):
             matrix.append((mode, op, i, j, outcome_code(got)))
@@ -222,7 +227,8 @@ def quirk_predict(mode, op, a, b):
     if ka == 'text' and kb != 'text' and not (
             mode == 'native' and op in ('=', '<>')):
         bv = b[1]
-        if mode == 'literals' and isinstance(bv, float) and bv.is_integer():
+        if mode in ('literals', 'calls') and isinstance(bv, float) and \
+                bv.is_integer():
             bv = int(bv)          # the literal 1.0 is written 1
         x, y = a[1].upper(), libstr(b[0], bv).upper()
         if op == '<' and kb == 'date':
